@@ -145,9 +145,9 @@ func cmdCheck(args []string) {
 	t0 := time.Now()
 	g := mustLoad()
 	keys := g.funcsForProp(*prop)
-	timeout := 10
+	timeout := 30
 	if *tier == "thorough" {
-		timeout = 60
+		timeout = 120
 	}
 	type fres struct {
 		key string
